@@ -1168,3 +1168,94 @@ Proof.
   { apply forallb_forall. intros e Hin. destruct e; try reflexivity. contradiction. }
   rewrite He, Hp, Hs, Hn. reflexivity.
 Qed.
+
+(* ------------------------------------------------------------------ *)
+(* The 32-iteration budget: one wake-up makes at most 32 alloc/read      *)
+(* rounds (plus, possibly, the buffer-less short-cut UV_EOF)             *)
+(* ------------------------------------------------------------------ *)
+Definition is_alloc (e : event) : bool := match e with EAlloc _ _ _ => true | _ => false end.
+Definition nallocs (evs : list event) : nat := length (filter is_alloc evs).
+
+Lemma nallocs_app a b : nallocs (a ++ b) = (nallocs a + nallocs b)%nat.
+Proof. unfold nallocs. rewrite filter_app, app_length. reflexivity. Qed.
+
+Lemma rets_no_alloc evs : Forall is_ret evs -> nallocs evs = O.
+Proof.
+  induction 1 as [|e evs He _ IH]; [reflexivity|].
+  destruct e; cbn in He; try contradiction. exact IH.
+Qed.
+
+Lemma call_read_cb_no_alloc E s nread buf off len :
+  nallocs (snd (call_read_cb E s nread buf off len)) = O.
+Proof.
+  pose proof (call_read_cb_shape E s nread buf off len) as H.
+  destruct (call_read_cb E s nread buf off len) as [s' evs]. destruct H as (_ & _ & _ & _ & H).
+  cbn [snd]. destruct (rcb s).
+  - destruct H as (rets & -> & Hq). unfold nallocs. cbn. exact (rets_no_alloc rets Hq).
+  - subst. reflexivity.
+Qed.
+
+Lemma stream_eof_no_alloc E s buf : nallocs (snd (stream_eof E s buf)) = O.
+Proof. unfold stream_eof. apply call_read_cb_no_alloc. Qed.
+
+Lemma read_iter_one_alloc E s : nallocs (snd (fst (read_iter E s))) = 1%nat.
+Proof.
+  unfold read_iter.
+  destruct (refuses (allocs E (nalloc s))).
+  - match goal with |- context [call_read_cb ?a ?b ?c ?d ?e ?f] =>
+      pose proof (call_read_cb_no_alloc a b c d e f) as H; destruct (call_read_cb a b c d e f) end.
+    cbn in *. unfold nallocs in *. cbn. rewrite H. reflexivity.
+  - destruct (sys_read (oracle (bump_alloc s))) as [a o']. destruct a.
+    + match goal with |- context [call_read_cb ?a ?b ?c ?d ?e ?f] =>
+        pose proof (call_read_cb_no_alloc a b c d e f) as H; destruct (call_read_cb a b c d e f) end.
+      cbn in *. unfold nallocs in *. cbn. rewrite H. reflexivity.
+    + match goal with |- context [call_read_cb ?a ?b ?c ?d ?e ?f] =>
+        pose proof (call_read_cb_no_alloc a b c d e f) as H; destruct (call_read_cb a b c d e f) end.
+      cbn in *. unfold nallocs in *. cbn. rewrite H. reflexivity.
+    + match goal with |- context [stream_eof ?a ?b ?c] =>
+        pose proof (stream_eof_no_alloc a b c) as H; destruct (stream_eof a b c) end.
+      cbn in *. unfold nallocs in *. cbn. rewrite H. reflexivity.
+    + match goal with |- context [call_read_cb ?a ?b ?c ?d ?e ?f] =>
+        pose proof (call_read_cb_no_alloc a b c d e f) as H; destruct (call_read_cb a b c d e f) end.
+      cbn in *. unfold nallocs in *. cbn. rewrite H. reflexivity.
+    + match goal with |- context [call_read_cb ?a ?b ?c ?d ?e ?f] =>
+        pose proof (call_read_cb_no_alloc a b c d e f) as H; destruct (call_read_cb a b c d e f) end.
+      cbn in *. unfold nallocs in *.
+      match goal with |- context [if ?c then _ else _] => destruct c end; cbn; rewrite H; reflexivity.
+Qed.
+
+Lemma read_loop_budget E c : forall s, (nallocs (snd (read_loop E c s)) <= c)%nat.
+Proof.
+  induction c as [|c IH]; intros s; cbn [read_loop]; [cbn; lia|].
+  destruct (loop_cond s); cbn [negb]; [|cbn; lia].
+  pose proof (read_iter_one_alloc E s) as H1.
+  destruct (read_iter E s) as [[s1 e1] go]; cbn [fst snd] in H1.
+  destruct go; [|cbn [snd]; lia].
+  specialize (IH s1). destruct (read_loop E c s1) as [s2 e2]; cbn [snd] in *.
+  rewrite nallocs_app. lia.
+Qed.
+
+Theorem budget E s raw : (nallocs (snd (run_once E s raw)) <= 32)%nat.
+Proof.
+  unfold run_once.
+  assert (H : (nallocs (snd (io_poll E s raw)) <= 32)%nat).
+  { unfold io_poll.
+    destruct (raw =? 0); [cbn; lia|]. destruct (negb (pollin s)); [cbn; lia|].
+    match goal with |- context [if ?c =? 0 then _ else stream_io E s ?p] =>
+      destruct (c =? 0); [cbn; lia|]; generalize p; intros ev end.
+    unfold stream_io.
+    assert (H1 : (nallocs (snd (if has ev (Z.lor POLLIN (Z.lor POLLERR POLLHUP)) then uv_read E s else (s, []))) <= 32)%nat).
+    { destruct (has ev _); [|cbn; lia]. unfold uv_read. apply read_loop_budget. }
+    destruct (if has ev (Z.lor POLLIN (Z.lor POLLERR POLLHUP)) then uv_read E s else (s, [])) as [s1 e1].
+    cbn [snd] in H1.
+    destruct (closing s1); [exact H1|].
+    destruct (has ev POLLHUP && reading s1 && partial s1 && negb (eof s1)); [|exact H1].
+    pose proof (stream_eof_no_alloc E s1 None) as H2.
+    destruct (stream_eof E s1 None) as [s2 e2]; cbn [snd] in *.
+    rewrite nallocs_app. lia. }
+  destruct (io_poll E s raw) as [s1 e1]; cbn [snd] in H.
+  destruct (closing s1 && negb (closed s1)); cbn [snd].
+  - change (EPoll raw :: e1 ++ [ECloseCb]) with ([EPoll raw] ++ e1 ++ [ECloseCb]).
+    rewrite !nallocs_app. cbn. lia.
+  - change (EPoll raw :: e1) with ([EPoll raw] ++ e1). rewrite nallocs_app. cbn. lia.
+Qed.
